@@ -720,6 +720,16 @@ def mutable_fields(cls):
             if isinstance(n, ast.Call) and isinstance(n.func, ast.Attribute) and n.func.attr in mut \
                     and self_attr(n.func.value):
                 out.add(n.func.value.attr)
+            # setattr(self, name, value): a literal name is that field; a computed name can be any field the class reads
+            if isinstance(n, ast.Call) and isinstance(n.func, ast.Name) and n.func.id == "setattr" and n.args \
+                    and isinstance(n.args[0], ast.Name) and n.args[0].id == "self":
+                if len(n.args) > 1 and isinstance(n.args[1], ast.Constant) and isinstance(n.args[1].value, str):
+                    out.add(n.args[1].value)
+                else:
+                    for fi2 in cls.methods.values():
+                        for m in ast.walk(fi2.node):
+                            if self_attr(m) and isinstance(m.ctx, ast.Load) and m.attr not in cls.methods:
+                                out.add(m.attr)
     _MUT_CACHE[cls.qualname] = out
     return out
 
